@@ -1,7 +1,277 @@
-//! C19 — not built yet
-use crate::vcore::Tier;
+//! C19 — audio arrives at exactly the configured rate and tracks the speaker bit.
+//! E-PROD over sample rates x machines x volumes x device enables x toggle times (every T of the
+//! frame in thorough) x drain schedules (all 2^6 patterns over 6 frames).
 
-pub fn run(_tier: Tier, _seed: u64, _replay: Option<String>) -> i32 {
-    eprintln!("MACHINERY: check C19 is not built yet");
-    2
+use crate::refzx::*;
+use crate::rig::{self, Emu, Opts, RegsView};
+use crate::vcore::{par_for, Ctx, Tier};
+use serde_json::json;
+
+const IDLE: u16 = 0x9000;
+const OUTC: u16 = 0x9100;
+const RATES: [usize; 10] = [8000, 8001, 11025, 22050, 44100, 44099, 48000, 96000, 192000, 384000];
+
+fn machine(m128: bool, rate: usize, volume: u8, beeper: bool, ay: bool) -> Emu {
+    let mut o = Opts::machine(m128);
+    o.rate = rate;
+    o.volume = volume;
+    o.beeper = beeper;
+    o.ay = ay;
+    o.sound = true;
+    let mut e = rig::emu_stepping(&o);
+    rig::poke(&mut e, IDLE, &[0xF3, 0x18, 0xFE]);
+    rig::poke(&mut e, OUTC, &[0xED, 0x79, 0xC3, IDLE as u8, (IDLE >> 8) as u8]);
+    let mut r = RegsView::default();
+    r.pc = IDLE;
+    r.sp = 0xBF00;
+    rig::set_regs(e.verif_cpu(), &r);
+    e
+}
+
+fn to_frame_end(e: &mut Emu, m128: bool) {
+    let sp = spec(m128);
+    let f = e.verif_total_frames();
+    if (e.verif_frame_clocks() as u64) < sp.frame - 60 {
+        e.verif_set_frame_clocks((sp.frame - 40) as usize);
+    }
+    while e.verif_total_frames() == f {
+        rig::step(e);
+    }
+}
+
+fn out_at(e: &mut Emu, t: usize, val: u8) -> (usize, usize) {
+    e.verif_set_frame_clocks(t);
+    let mut r = RegsView::default();
+    r.pc = OUTC;
+    r.sp = 0xBF00;
+    r.bc = 0x00FE;
+    r.af = (val as u16) << 8;
+    rig::set_regs(e.verif_cpu(), &r);
+    rig::step(e);
+    (t, e.verif_frame_clocks())
+}
+
+fn level(val: u8, volume: u8) -> f32 {
+    let mut s = 0.0f64;
+    if val & 0x10 != 0 {
+        s += 0.5;
+    }
+    if val & 0x08 != 0 {
+        s += 0.1;
+    }
+    (s * (volume as f64 / 200.0)) as f32
+}
+
+/// One toggle at time t: returns outcome digest
+fn toggle_case(ctx: &Ctx, m128: bool, rate: usize, volume: u8, bit: u8, t: usize, second: Option<usize>) -> u64 {
+    let sp = spec(m128);
+    let spf = rate / 50;
+    let mut e = machine(m128, rate, volume, true, false);
+    // settle: one frame with level 0, drained
+    to_frame_end(&mut e, m128);
+    rig::drain_audio(&mut e);
+    to_frame_end(&mut e, m128);
+    let pre = rig::drain_audio(&mut e);
+    let case = json!({"kind":"toggle","m128":m128,"rate":rate,"volume":volume,"bit":bit,"t":t,"second":second});
+    // now a few T into a fresh frame
+    let start = e.verif_frame_clocks();
+    let (t0, t1) = out_at(&mut e, t.max(start), bit);
+    let mut extent_hi = t1;
+    let mut final_val = bit;
+    if let Some(dt) = second {
+        let t2 = (t1 + dt).max(e.verif_frame_clocks());
+        let (_, t3) = out_at(&mut e, t2, 0);
+        extent_hi = t3;
+        final_val = 0;
+    }
+    if t1 < t0 || extent_hi < t0 {
+        // wrapped into the next frame: not an in-frame toggle
+        return 0;
+    }
+    to_frame_end(&mut e, m128);
+    let fc = e.verif_frame_clocks() as u64;
+    let got = rig::drain_audio(&mut e);
+    let extra = (spf as u64 * fc / sp.frame) as usize;
+    ctx.add_eval(1);
+    let mname = if m128 { "128k" } else { "48k" };
+    if (got.len() as i64 - (spf + extra) as i64).abs() > 1 || pre.len() < spf || pre.len() > spf + 8 {
+        ctx.violation(
+            &format!("C19:samples-per-frame:{}", mname),
+            &format!("rate {}: a drained frame delivered {} samples (previous frame {}), expected floor(rate/50) = {} (+{} for the {} T the last instruction ran into the next frame)", rate, got.len(), pre.len(), spf, extra, fc),
+            case,
+        );
+        return 0;
+    }
+    let l0 = level(0, volume);
+    let l1 = level(bit, volume);
+    let lf = level(final_val, volume);
+    let bound = (0.6 + 3.75) * volume as f32 / 200.0 + 1e-6;
+    for (k, s) in got.iter().enumerate() {
+        if !s.0.is_finite() || !s.1.is_finite() || s.0.abs() > bound || s.1.abs() > bound {
+            ctx.violation(&format!("C19:sample-out-of-bounds:{}", mname), &format!("rate {} volume {}: sample {} = {:?} exceeds the bound {}", rate, volume, k, s, bound), case);
+            return 0;
+        }
+    }
+    // expected edge window in samples
+    let lo = (t0 as u64 * spf as u64 / sp.frame) as i64 - 1;
+    let hi = ((extent_hi as u64 + 1) * spf as u64 / sp.frame) as i64 + 1;
+    let n = spf.min(got.len());
+    let mut first_change: Option<usize> = None;
+    for k in 0..n {
+        let v = got[k].0;
+        let expect_before = (k as i64) < lo;
+        let expect_after = (k as i64) > hi;
+        let want = if expect_before { Some(l0) } else if expect_after { Some(lf) } else { None };
+        if first_change.is_none() && (v - l0).abs() > 1e-6 {
+            first_change = Some(k);
+        }
+        if let Some(w) = want {
+            if (v - w).abs() > 1e-6 || (got[k].1 - w).abs() > 1e-6 {
+                ctx.violation(
+                    &format!("C19:beeper-level:{}:{}", mname, if expect_before { "before-the-write" } else { "after-the-write" }),
+                    &format!(
+                        "rate {} volume {}: OUT (FE),{:02x} executed at T={}..{} of the frame: sample {} is {} but the speaker level set at that time gives {} (edge expected between samples {} and {})",
+                        rate, volume, bit, t0, extent_hi, k, v, w, lo, hi
+                    ),
+                    case,
+                );
+                return 0;
+            }
+        } else if (v - l0).abs() > 1e-6 && (v - l1).abs() > 1e-6 && (v - lf).abs() > 1e-6 {
+            ctx.violation(&format!("C19:beeper-level:{}:unknown-level", mname), &format!("rate {}: sample {} = {} is none of the levels {} / {}", rate, k, v, l0, l1), case);
+            return 0;
+        }
+    }
+    (first_change.unwrap_or(99999) as u64) << 20 | (rate as u64)
+}
+
+fn drain_schedules(ctx: &Ctx, m128: bool, rate: usize, ay: bool) {
+    let sp = spec(m128);
+    let spf = rate / 50;
+    for pattern in 0..64u32 {
+        let mut e = machine(m128, rate, 100, true, ay);
+        let mut total = 0usize;
+        let mut since_drain = 0u64;
+        let case = json!({"kind":"drain","m128":m128,"rate":rate,"ay":ay,"pattern":pattern});
+        for f in 0..6 {
+            // toggle the speaker twice per frame at fixed places
+            out_at(&mut e, 20000, 0x10);
+            out_at(&mut e, 40000, 0x00);
+            to_frame_end(&mut e, m128);
+            since_drain += 1;
+            if pattern & (1 << f) != 0 {
+                let got = rig::drain_audio(&mut e);
+                total += got.len();
+                if got.len() >= 2 * spf {
+                    ctx.violation(
+                        &format!("C19:queue-too-long:{}", if m128 { "128k" } else { "48k" }),
+                        &format!("rate {} ay {}: {} samples queued after {} undrained frame(s) (two frames' worth = {})", rate, ay, got.len(), since_drain, 2 * spf),
+                        case.clone(),
+                    );
+                    return;
+                }
+                for s in got.iter() {
+                    if !s.0.is_finite() || !s.1.is_finite() || s.0.abs() > 4.35 || s.1.abs() > 4.35 {
+                        ctx.violation("C19:sample-out-of-bounds:drain", &format!("rate {} ay {}: sample {:?}", rate, ay, s), case.clone());
+                        return;
+                    }
+                }
+                since_drain = 0;
+            }
+        }
+        let rest = rig::drain_audio(&mut e);
+        if rest.len() >= 2 * spf {
+            ctx.violation(
+                &format!("C19:queue-too-long:{}", if m128 { "128k" } else { "48k" }),
+                &format!("rate {} ay {}: {} samples queued at the end of drain pattern {:06b} (two frames' worth = {})", rate, ay, rest.len(), pattern, 2 * spf),
+                case,
+            );
+            return;
+        }
+        if pattern == 63 {
+            let fc = e.verif_frame_clocks() as u64;
+            let extra = (spf as u64 * fc / sp.frame) as usize;
+            let all = total + rest.len();
+            if (all as i64 - (6 * spf + extra) as i64).abs() > 1 {
+                ctx.violation(
+                    &format!("C19:samples-per-frame:{}", if m128 { "128k" } else { "48k" }),
+                    &format!("rate {} ay {}: 6 drained frames delivered {} samples, expected 6 x {} (+{})", rate, ay, all, spf, extra),
+                    case,
+                );
+            }
+        }
+        ctx.add_eval(1);
+        ctx.outcome(((total + rest.len()) as u64) << 8 | pattern as u64);
+    }
+}
+
+pub fn run(tier: Tier, seed: u64, replay: Option<String>) -> i32 {
+    let ctx = Ctx::new("C19", tier, seed, "exploration");
+    let quick = !tier.is_thorough();
+    if let Some(path) = replay {
+        let v: serde_json::Value = serde_json::from_slice(&rig::read_file(&path)).expect("replay json");
+        let c = &v["case"];
+        let m128 = c["m128"].as_bool().unwrap_or(false);
+        let rate = c["rate"].as_u64().unwrap_or(44100) as usize;
+        if c["kind"] == "toggle" {
+            toggle_case(&ctx, m128, rate, c["volume"].as_u64().unwrap_or(100) as u8, c["bit"].as_u64().unwrap_or(16) as u8, c["t"].as_u64().unwrap_or(0) as usize, c["second"].as_u64().map(|x| x as usize));
+        } else {
+            drain_schedules(&ctx, m128, rate, c["ay"].as_bool().unwrap_or(false));
+        }
+        let n = ctx.violation_classes();
+        println!("replay: {} violation class(es) reproduced", n);
+        return (n > 0) as i32;
+    }
+    let mut jobs: Vec<(bool, usize, u8, u8, usize, Option<usize>)> = Vec::new();
+    for m128 in [false, true] {
+        let sp = spec(m128);
+        let frame = sp.frame as usize;
+        let ts: Vec<usize> = if quick {
+            let mut v: Vec<usize> = (8..264).collect();
+            v.extend((frame / 2)..(frame / 2 + 256));
+            v.extend((frame - 280)..(frame - 24));
+            v
+        } else {
+            (8..frame - 24).collect()
+        };
+        for &rate in RATES.iter() {
+            for &t in ts.iter() {
+                if quick && t % 2 == 1 && rate != 44100 {
+                    continue;
+                }
+                jobs.push((m128, rate, 100, 0x10, t, None));
+            }
+            // MIC bit, other volumes, two toggles closer than one sample: a sparser set of times
+            for &t in ts.iter().step_by(if quick { 37 } else { 11 }) {
+                jobs.push((m128, rate, 100, 0x08, t, None));
+                jobs.push((m128, rate, 200, 0x18, t, None));
+                jobs.push((m128, rate, 1, 0x10, t, None));
+                jobs.push((m128, rate, 0, 0x10, t, None));
+                jobs.push((m128, rate, 100, 0x10, t, Some(0)));
+                jobs.push((m128, rate, 100, 0x10, t, Some(40)));
+            }
+        }
+    }
+    par_for(jobs.len(), 16, |j| {
+        let (m128, rate, vol, bit, t, second) = jobs[j];
+        let d = toggle_case(&ctx, m128, rate, vol, bit, t, second);
+        if j % 97 == 0 {
+            ctx.outcome(d);
+        }
+    });
+    let djobs: Vec<(bool, usize, bool)> = [false, true].iter().flat_map(|m| RATES.iter().flat_map(move |r| [(*m, *r, false), (*m, *r, true)])).collect();
+    par_for(djobs.len(), 1, |j| {
+        let (m128, rate, ay) = djobs[j];
+        drain_schedules(&ctx, m128, rate, ay);
+    });
+    ctx.add_nontrivial(jobs.len() as u64 + djobs.len() as u64 * 64);
+    ctx.sample(json!({"rate":44100,"m128":false,"toggle_bit":16,"t":34944,"expected_edge_sample":"441 +- 1"}));
+    ctx.note("toggle_cases", json!(jobs.len()));
+    ctx.note("drain_patterns", json!(djobs.len() * 64));
+    ctx.note("not_judged", json!("which frame the few samples belong to that are produced while the last instruction of a frame runs into the next one (they are counted by emulated time)"));
+    ctx.finish(
+        "sample rates {8000,8001,11025,22050,44100,44099,48000,96000,192000,384000} x {48K,128K}: one OUT (FE) toggling bit 4 with its start at every T of the frame (quick: first, middle and last 256 T), sparser sets for bit 3, volumes {0,1,200} and two toggles closer than one sample; per drained frame floor(rate/50) samples (by emulated time), every sample before/after the edge window equals the level set, the edge within one sample of the OUT, all samples finite and bounded; all 64 drain/no-drain patterns over 6 frames x rates x machines x AY on/off: queue always below two frames' worth. distinct_nontrivial = cases",
+        false,
+        &["frame clock placed through the hook before each OUT; remaining frame is idle loop", "beeper-only machines for the edge test so the AY path does not blur levels"],
+    )
 }
